@@ -8,27 +8,52 @@
      Tree w : (C1/C2) c in children(p) <-> c tracked /\ parent_id c = lid p <> 0 /\ same region /\ p tracked,
               (C3) children duplicate-free,
               (O1/O2) c in orphans[p] <-> c tracked /\ parent_id c = p <> 0 /\ p untracked in that region,
-              (O3) orphan lists duplicate-free                                             (SceneGraphTree.v)
+              (O3) orphan lists duplicate-free,
+              (P) obj.Parent names exactly the object whose children list holds obj      (SceneGraphTree.v)
 
-   PROVED for all histories (Qed, closed): Idx and Tree are preserved by EVERY event kind (C14_step_idx_partial,
-   C14_step_tree_partial): ObjectUpdate / ObjectUpdateCompressed of new and of known objects incl. re-parenting,
-   local-id change and region move with orphan adoption, ImprovedTerseObjectUpdate, ObjectUpdateCached,
-   ObjectProperties, KillObject with its full cascade (known object with descendants, unknown id with orphans,
-   avatars surviving as orphans), region teardown, track region, the three request kinds; hence after every history
-   (C14_history_tree_partial); adoption / orphan-holding corollaries; cancellation of requests on teardown.
+   PROVED for all histories (Qed, closed):
+   * Idx and Tree (incl. the Parent clause) are preserved by EVERY event kind (C14_step_idx_partial,
+     C14_step_tree_partial): ObjectUpdate / ObjectUpdateCompressed of new and of known objects incl. re-parenting,
+     local-id change and region move with orphan adoption, ImprovedTerseObjectUpdate, ObjectUpdateCached,
+     ObjectProperties, KillObject with its full cascade (known object with descendants, unknown id with orphans,
+     avatars surviving as orphans), region teardown, track region, the three request kinds; hence after every history
+     (C14_history_tree_partial); adoption / orphan-holding corollaries.
+   * the Parent back-link (C14_parent_link, C14_parent_children, C14_history_parent_link_partial): obj.Parent is the
+     tracked object with local id obj.ParentID in obj's region, None when ParentID = 0 or no such object is tracked.
+   * pending requests (SceneGraphFut.v): unconditionally, no request is ever dropped, re-keyed or reopened and a done
+     request is never touched again (C14_requests_monotone, C14_request_done_stable); KillObject cancels (never
+     resolves) and leaves no pending request for the killed id nor for the local id of any object the cascade removed
+     (C14_kill_cancels); ObjectUpdate(Compressed) resolves every pending UPDATE request of its (region, local id) with
+     that object (C14_update_resolves) and cancels those of the id the object moved away from (C14_moved_cancels);
+     ObjectProperties / terse updates that change something resolve (C14_props_resolves, C14_terse_resolves); teardown
+     cancels the region's requests (C14_clear_cancels); the history-level forms C14_history_kill_cancelled,
+     C14_history_update_resolved.  [As in the code, a reply that changes no property runs no hooks and resolves
+     nothing: not a clause of the statement, noted only.]
+   * no handler raises (SceneGraphNoErr.v): C14_step_noerr_partial - under Idx, Tree, the input assumptions and acyclic
+     parent links every step returns Some: none of the asserts of _parent_object / track_object / untrack_object fires,
+     no KeyError / AttributeError-on-None, and the fuel of the kill cascade (tracked objects + 1) suffices
+     (C14_kill_noerr); hence C14_history_noerr_partial: such a history runs to the end and Idx /\ Tree hold there.
+     acyclic w := some ranking of (region, local id) keys puts every tracked object strictly below its ParentID key.
+   * towards the reference set (SceneGraphRef.v): objects enter the lookup only by being announced into a tracked
+     region, leave it only through a KillObject of their region or the teardown of their region, an announced object
+     is tracked afterwards, KillObject removes the object it names, teardown removes exactly the region's objects,
+     every tracked object was announced (C14_enter_only_announced_partial, C14_leave_only_killed_or_unloaded_partial,
+     C14_announced_tracked, C14_kill_removes_target, C14_clear_unloads, C14_history_tracked_announced_partial).
    Hypotheses (input_tree_ok): an object update names a tracked region (see C14_untracked_region_refuted), does not
    give a local id owned by another live object, and does not (re)index the object under a local id equal to the
    parent id it carries at that moment - for new objects and region moves this is the statement's "no parent cycle"
    for a 1-cycle; for a local-id change inside a region it is the OLD parent id, which is an extra hypothesis beyond
-   the statement (a proof gap, not a defect: the correspondence exercises it).  No acyclicity hypothesis is needed
-   (the theorems are about steps that return Some).
-   NOT PROVED in Coq (correspondence + impl-level oracle only): that no step returns None (incl. that the kill
-   fuel suffices under acyclicity), the Parent back-link, requests cancelled on kill / resolved on update, the
-   reference-set refinement (abs (run h) = reference h).
+   the statement (a proof gap, not a defect: the code passes through a state where the object is its own child, which
+   the generalised invariant TreeG cannot express; the correspondence exercises it).  input_noerr_ok adds: a
+   KillObject / teardown / track / request names a registered region (the message comes from a known circuit).
+   NOT PROVED in Coq (correspondence + impl-level oracle only): the exact reference-set equality
+   (abs (run h) = reference h), i.e. that KillObject removes exactly the named object and its descendants through
+   non-avatar links and nothing else (proved: it only removes objects of its region, removes the named object, and
+   every survivor keeps local id / full id / region, C14_kill_idx); the local-id-change gap above.
    The full statement is false of the (faithful) model outside the hypothesis "updates name a tracked region":
    see C14_untracked_region_refuted with its witness history (a recorded known finding). *)
 From Coq Require Import NArith List Bool.
-From HV Require Import Obj.SceneGraph Obj.SceneGraphProofs Obj.SceneGraphTree Obj.SceneGraphKill Obj.SceneGraphFut Obj.SceneGraphNoErr.
+From HV Require Import Obj.SceneGraph Obj.SceneGraphProofs Obj.SceneGraphTree Obj.SceneGraphKill Obj.SceneGraphFut Obj.SceneGraphNoErr Obj.SceneGraphRef.
 Import ListNotations.
 Open Scope N_scope.
 
@@ -252,6 +277,48 @@ Theorem C14_history_noerr_partial : forall h,
   hist_ok input_full_ok init h -> exists w', run init h = Some w' /\ Idx w' /\ Tree w'.
 Proof. intros h H. exact (run_ok h init (conj init_Idx init_Tree) H). Qed.
 Print Assumptions C14_history_noerr_partial.
+
+(* ---- which objects are tracked (towards the reference-set clause; the exact set equality is NOT proved) ---- *)
+(* an object enters the full-id lookup only by being announced: ObjectUpdate(Compressed) with its full id into a
+   tracked region *)
+Theorem C14_enter_only_announced_partial : forall w e w' g, Idx w -> step w e = Some w' ->
+  get_obj w g = None -> get_obj w' g <> None ->
+  exists cmp r l p av v, e = EFull cmp r l g p av v /\ region_state w r <> None.
+Proof. exact step_enter. Qed.
+Print Assumptions C14_enter_only_announced_partial.
+
+(* ... and leaves it only through a KillObject sent for its region or the teardown of its region *)
+Theorem C14_leave_only_killed_or_unloaded_partial : forall w e w' g o, Idx w -> step w e = Some w' ->
+  get_obj w g = Some o -> get_obj w' g = None -> (exists l, e = EKill (o_region o) l) \/ e = EClear (o_region o).
+Proof. exact step_leave. Qed.
+Print Assumptions C14_leave_only_killed_or_unloaded_partial.
+
+(* an announced object is tracked afterwards; KillObject removes the object it names; teardown of region r removes
+   exactly the objects of region r *)
+Theorem C14_announced_tracked : forall w cmp r l f p av v w', Idx w -> region_state w r <> None ->
+  step w (EFull cmp r l f p av v) = Some w' -> get_obj w' f <> None.
+Proof. intros w cmp r l f p av v w' (K & _). exact (step_announce w cmp r l f p av v w' K). Qed.
+Print Assumptions C14_announced_tracked.
+
+Theorem C14_kill_removes_target : forall w r l w' o, Idx w -> Tree w -> step w (EKill r l) = Some w' ->
+  lookup_local w r l = Some o -> get_obj w' (o_full o) = None.
+Proof. exact kill_target_removed. Qed.
+Print Assumptions C14_kill_removes_target.
+
+Theorem C14_clear_unloads : forall w r w', Idx w -> step w (EClear r) = Some w' ->
+  forall g, get_obj w' g = match get_obj w g with Some o => if o_region o =? r then None else Some o | None => None end.
+Proof. intros w r w' (K & _) H. exact (proj1 (clear_spec w r w' K H)). Qed.
+Print Assumptions C14_clear_unloads.
+
+(* over histories: every tracked object was announced *)
+Theorem C14_history_tracked_announced_partial : forall h w g,
+  hist_ok input_idx_ok init h -> run init h = Some w -> get_obj w g <> None ->
+  exists cmp r l p av v, In (EFull cmp r l g p av v) h.
+Proof.
+  intros h w g H R Hs. destruct (run_tracked_announced h init w g init_Idx H R Hs) as [H0|H1]; [|exact H1].
+  exfalso. apply H0. reflexivity.
+Qed.
+Print Assumptions C14_history_tracked_announced_partial.
 
 (* ---- the full statement fails on the faithful model: witnesses (all replayed on the real code) ---- *)
 
